@@ -142,6 +142,7 @@ func execC12(t *testing.T, c C12Case) (v Verdict) {
 	serveDone := false
 	probeOK := false
 	var tap []kit.Ev
+	stalledAt := -1
 	res := kit.Bubble(t, func() {
 		svc := kit.NewSvc()
 		svc.Unary("u", func(ctx context.Context, req []byte) ([]byte, error) {
@@ -207,11 +208,16 @@ func execC12(t *testing.T, c C12Case) (v Verdict) {
 			_ = raw.Write(context.Background(), se.Build(uint64(9001+k), kit.FullMethod("uslow"), "c0", kit.ServerName))
 		}
 		kit.Settle()
-		for _, s := range c.Seq {
+		for i, s := range c.Seq {
 			e := al[s.Shape].Env
 			_ = raw.Write(context.Background(), e.Build(s.ID, "", "c0", kit.ServerName))
 			if !c.Burst {
 				kit.Settle()
+				if stalledAt < 0 && w.Links[0].B.Pending() > 0 {
+					// the read loop is parked (legitimately) on a lingering stream's full queue: from here on
+					// envelopes are no longer digested one by one, so the life-cycle model below does not apply
+					stalledAt = i
+				}
 			}
 		}
 		if c.Burst {
@@ -270,15 +276,18 @@ func execC12(t *testing.T, c C12Case) (v Verdict) {
 	// A small definite life-cycle model for the echo method "s" when every envelope is digested before the next one is
 	// sent (non-burst): open -> (caller's OK trailer | caller's reset) -> the handler returns and the stream is gone; a
 	// body arriving after that is "a body for a stream the server does not know" and must be answered by a reset. Any
-	// other envelope touching the id makes its state unknown (no requirement).
+	// other envelope touching the id makes its state unknown (no requirement), and so does every envelope from the first
+	// one the server had not read when the harness went on (stalledAt: the read loop was parked on a lingering stream).
 	sState := map[uint64]string{} // "" none | open | ended | unknown
 	bodiesAfterEnd := map[uint64]int{}
-	for _, s := range c.Seq {
+	for i, s := range c.Seq {
 		sh := al[s.Shape]
 		if !c.Burst {
 			st := sState[s.ID]
 			switch {
 			case st == "unknown":
+			case stalledAt >= 0 && i >= stalledAt:
+				sState[s.ID] = "unknown"
 			case sh.Name == "open" && st == "":
 				sState[s.ID] = "open"
 			case (sh.Name == "trailer-ok" || sh.Name == "reset") && st == "open":
